@@ -30,6 +30,8 @@ def step (st : St) (ws : List String) (j : Json) : St × String :=
   if op == "recurring" then
     (if ret == "ok:all" then (st, "ok recurring:all-queued")
      else (st, s!"FAIL oracle recurring_scheduled_after_start {ret}")) else
+  -- C16: no operation, request or background task run (`pump`, `sync`) may panic
+  if ret.startsWith "PANIC" then (st, s!"FAIL oracle no_panic {op}") else
   if !singleRequest op then (st, s!"ok trivial:{op}") else
   let succ := (jarr (jget j "cmds")).filter fun c =>
     jstr (jget c "result") == "success" && (jstr (jget c "entity")).startsWith "cas:"
